@@ -39,6 +39,13 @@ func runC10(c *core.Case) {
 		}
 		sq = append(sq, a)
 	}
+	if r.P(0.004) { // long lists around batch sizes: length and order must survive chunking/parallelisation
+		for n := longLen(r); len(sq) < n; {
+			z := genZoom(r)
+			sq = append(sq, genID(r, z, z, z, z))
+		}
+		c.Tag("long-list")
+	}
 	sp := ref.Spatials(sq)
 	ex := ref.Exts(sq)
 	e := genID(r, 0, 35, 0, 35)
@@ -161,6 +168,33 @@ func runC10(c *core.Case) {
 		return
 	}
 
+	// object reuse: the same object first holds another ID (whose expansion is large), is expanded, and is then
+	// reset to the judged ID; the judged expansion must follow the object's current content
+	if r.P(0.2) {
+		other := genID(r, 0, 31, 0, 31)
+		if r.Bool() {
+			other.V = clampI(other.H+r.Range(3, 4), 0, 35)
+			other.F = edgeF(r, other.V)
+		} else {
+			other.H = clampI(other.V+r.Range(3, 4), 0, 35)
+			other.X, other.Y = edgeIndex(r, pow2(other.H)), edgeIndex(r, pow2(other.H))
+		}
+		if e := o.ResetExtendedSpatialID(other.Ext()); e != nil {
+			c.Fail("object-reset", nil, "ResetExtendedSpatialID(%q): %v", other.Ext(), e)
+			return
+		}
+		_ = transform.ConvertExtendedSpatialIDToSpatialIDs(o)
+		c.Call()
+		if r.Bool() {
+			o.ResetExtendedSpatialID(es)
+		} else {
+			o.SetZoom(e.H, e.V)
+			o.SetX(e.X)
+			o.SetY(e.Y)
+			o.SetZ(e.F)
+		}
+		c.Tag("reused-object")
+	}
 	// expansion into spatial IDs at max(h,v)
 	exp := transform.ConvertExtendedSpatialIDToSpatialIDs(o)
 	c.Call()
